@@ -579,6 +579,23 @@ func (x *EvalCtx) callExpr(n *ECall) Val {
 	case "numOf":
 		a := x.eval(n.Args[0])
 		return Val{T: types.Typ[types.Float64], S: app("pnum", app("ipay", a.S))}
+	case "sliceOf":
+		a := x.eval(n.Args[0])
+		pay := app("ipay", a.S)
+		return Val{T: types.NewSlice(types.NewInterfaceType(nil, nil)), Sl: &SliceV{app("psb", pay), app("pso", pay), app("psl", pay), app("psc", pay)}}
+	case "mapOf":
+		a := x.eval(n.Args[0])
+		mt := types.NewMap(strT, types.NewInterfaceType(nil, nil))
+		return Val{T: mt, S: app("pref", app("ipay", a.S))}
+	case "fIntegral":
+		a := x.eval(n.Args[0])
+		return Val{T: boolT, S: app("fp.eq", a.S, app("fp.roundToIntegral", "RTZ", a.S))}
+	case "fInU64":
+		a := x.eval(n.Args[0])
+		return Val{T: boolT, S: and(app("fp.leq", fpLit(0), a.S), app("fp.lt", a.S, fpLit(18446744073709551616.0)))}
+	case "sameNumber":
+		u, f := x.eval(n.Args[0]), x.eval(n.Args[1])
+		return Val{T: boolT, S: eq(app("to_real", u.S), app("fp.to_real", f.S))}
 	case "min":
 		a, b := x.eval(n.Args[0]), x.eval(n.Args[1])
 		return Val{T: a.T, S: ite(app("<=", a.S, b.S), a.S, b.S)}
@@ -637,6 +654,12 @@ func (x *EvalCtx) specTypeAny(name string) (types.Type, string) {
 		}
 	} else if x.pkg != nil {
 		scope = x.pkg.Pkg.Scope()
+	}
+	switch name {
+	case "[]any":
+		return types.NewSlice(types.NewInterfaceType(nil, nil)), ""
+	case "map[string]any":
+		return types.NewMap(strT, types.NewInterfaceType(nil, nil)), sInt
 	}
 	switch nm {
 	case "string":
